@@ -72,7 +72,7 @@ def run(rep, tier):
             inst = "%s | %s" % (db.label, f["full"][:150])
             # private members of the wrappers are reachable only from members / friends, every one of which is analysed as a root with
             # the private member inlined (who may name them is C01's R-C01-surface); they are not entry points of their own
-            private_primitive = f.get("access") == 2 and f["n"].rsplit("::", 1)[0] in ("rlbox::tainted", "rlbox::tainted_volatile")
+            private_primitive = f.get("access") == 2 and f["n"].rsplit("::", 1)[0] in ("rlbox::tainted", "rlbox::tainted_volatile", "rlbox::tainted_base_impl")
             if private_primitive:
                 continue
             if f["n"].startswith("rlbox::detail::"):
